@@ -219,6 +219,24 @@ def answer (line : String) : String :=
       | _, _ =>
         let bad := (evs.splitOn ";").find? (fun t => (parseEv t).isNone)
         s!"bad-op {bad.getD "?"}"
+    | "options" :: cfg =>
+      -- configured values (request side) and observed values: identity for the request fields, tolerances for rates
+      let kv (l : List String) (k : String) : Option String :=
+        (l.find? (fun x => x.startsWith (k ++ "="))).map (fun x => (x.drop (k.length + 1)).toString)
+      let obs := words _impl
+      let exact := ["gid", "topics", "protocols", "session", "rebalance", "retention", "start"]
+      let badExact := exact.filter (fun k => kv cfg k != kv obs k || (kv cfg k).isNone)
+      let nat (l : List String) (k : String) : Nat := ((kv l k).bind (·.toNat?)).getD 0
+      let el := nat cfg "el"
+      let hbIdeal := el / (max (nat cfg "hbiv") 1)
+      let wIdeal := el / (max (nat cfg "wiv") 1)
+      let bo := ((kv obs "backoff").bind (·.toInt?)).getD (-1)
+      let bad := badExact ++
+        (if decide (hbIdeal / 4 ≤ nat obs "hb" ∧ nat obs "hb" ≤ hbIdeal + 2) then [] else ["hb"]) ++
+        (if decide (wIdeal / 4 ≤ nat obs "watch" ∧ nat obs "watch" ≤ wIdeal + 3) && decide (0 < nat obs "watch") then [] else ["watch"]) ++
+        (if decide ((nat cfg "backoff" : Int) ≤ bo + 1 ∧ bo ≤ (nat cfg "backoff" : Int) + 300) then [] else ["backoff"])
+      if bad.isEmpty && el > 0 then s!"model={_impl} holds=1"
+      else s!"model=options-not-passed-through:{",".intercalate bad} holds=0"
     | ["hbwait", iv, el] =>
       -- the same observation while the generation waits to be picked up by Next
       match iv.toNat?, el.toNat?, _impl.toNat? with
